@@ -704,5 +704,15 @@ theorem finish_err_iff (spec : Spec) (o : Out Value × List Event) (e : CallErr)
   | panic w => rw [finish_panic]
   | unmodelled => rw [finish_unmodelled]
 
+/-- what `WithUnhandled` says of an unknown value -/
+theorem withUnhandled_unknown {spec : Spec} {args : List Value} {t : Ty} {u : Value}
+    (hwu : WithUnhandled spec args (Value.unknown t) u) :
+    u.ty = t ∧ u.unmark = Value.unknown t ∧ u.isKnown = false ∧ (∀ m, m ∈ u.marks ↔ Unhandled spec args m) := by
+  refine ⟨hwu.1, hwu.2.1, ?_, fun m => by simpa [Value.unknown, Value.marks, Payload.marks1] using hwu.2.2 m⟩
+  have := congrArg Value.v hwu.2.1
+  simp only [Value.unmark, Value.unknown] at this
+  unfold Value.isKnown Payload.isKnown
+  rw [this]; rfl
+
 end Fn
 end CtyModel
